@@ -267,6 +267,19 @@ func (g *Gen) fill(k Kind, depth int, hidden bool) *Node {
 	for _, b := range ki.NInts {
 		n.N = append(n.N, g.T.Draw(b))
 	}
+	if k == LUIsStd {
+		// a foreign leaf that claims os.ErrNotExist and whose own text
+		// contains, starts or ends with the sentinel's text
+		st := "file does not exist"
+		switch g.T.Draw(6) {
+		case 0:
+			n.S[0].V = st + " (" + n.S[0].V + ")"
+		case 1:
+			n.S[0].V = st + ": " + n.S[0].V
+		case 2:
+			n.S[0].V = n.S[0].V + ": " + st
+		}
+	}
 	if k == WDomain && g.T.Bool(1, 8) {
 		n.S[0] = Str{Safe: true} // WithDomain(err, NoDomain)
 	}
@@ -598,6 +611,18 @@ func (b *Builder) mapBuilt(clone, orig *Node) {
 	for i := range clone.Hid {
 		b.mapBuilt(clone.Hid[i], orig.Hid[i])
 	}
+}
+
+// DeepUnsafeChain builds a chain of n Wrapf layers, each with an unsafe
+// argument, over a leaf (limits that depend on the number of layers).
+func (g *Gen) DeepUnsafeChain(n int) *Node {
+	cur := &Node{K: LNew, S: []Str{g.SG.Str(true)}}
+	for i := 0; i < n; i++ {
+		w := &Node{K: WWrapf, S: []Str{{V: fmt.Sprintf("l%d", i), Safe: true}}, A: []Arg{{Kind: ArgUnsafeStr, S: g.SG.StrA(false, Plain)}}}
+		w.Kids = []*Node{cur}
+		cur = w
+	}
+	return cur
 }
 
 // DeepChain builds a chain of n simple library wrappers over a leaf (depth
